@@ -15,7 +15,7 @@ impl Check for C19 {
     }
     fn runs(&self, tier: Tier) -> u64 {
         match tier {
-            Tier::Quick => 300_000,
+            Tier::Quick => 800_000,
             Tier::Thorough => 15_000_000,
         }
     }
